@@ -120,10 +120,8 @@ def run(ctx):
             # U: [n_chains] uniforms from self.rng
             oku = False
             if T.is_app(U, 'tensordata') and U[2][1] is T.app('array', n_ch):
-                draws = [s for s in E.rng_sites(ev) if s.kind == 'draw' and s.draw_kind == 'rng_random']
-                if len(draws) == 1 and len(draws[0].loops) == 1:
-                    ul = E.loop_by_uid(ev, draws[0].loops[0])
-                    oku = ul.n is n_ch and not ul.exits and any(seq is U[2][0] and el is draws[0].res for seq, el in collected(ul))
+                dv = E.draw_vector(ev, 'StandardUniform', within=U)       # element-wise in a counted loop, or as one block of the stream
+                oku = dv is not None and dv['n'] is n_ch and strip_eff(dv['seq']) is strip_eff(U[2][0]) and dv['site'].gen_root == 'self.rng' 
             ctx.check('C02.uniform', A, 'uniform', oku, expected='U = [n_chains] StandardUniform draws', found=show(U), sp=sp, why='one acceptance variate per chain')
     # ---- row independence
     bad = []
